@@ -969,3 +969,40 @@ ASSUMPTIONS = [
 
 # --- review repairs in the Rounding layer (renamed stdmodel_* theorems, underflow-aware variants, genuine FlModel instance; wired by the lead)
 NOT_PROVED = list(NOT_PROVED) + ['theorems named stdmodel_* hold in the idealised standard model (fl(x) = x(1+d) for every operation, library functions with relative error <= u_f for every argument) at u = 2^-53; they describe binary64 only where nothing overflows or underflows (for exp: arguments in [-708.39, 709.78]); outside that range computed values may be exactly 0 or inf']
+
+# --- FINAL claim texts (review round 2): literal, complete, replaces everything accumulated above.
+REQUIRED_THEOREMS = REQUIRED_THEOREMS + [t for t in ['Cv.C07R.romberg_smul', 'Cv.C07R.romberg_swap', 'Cv.C07R.romberg_self', 'Cv.C07.quad5_moment_20',
+                                                      'Cv.C07V.romberg_not_additive', 'Cv.C07V.trapezoid_eq_integrals'] if t not in REQUIRED_THEOREMS]
+NOT_PROVED = [
+    "THE DEGREE-(2k-1) CLAUSE AT eps > 0. As literally quantified (level budgets 2..20 together with tolerances up to 1e-3) the clause "
+    "'Romberg with k levels is exact for polynomials up to degree 2k-1' is NOT what the code delivers: a run with eps > 0 may stop at "
+    "the first level 2 <= s < k whose consecutive estimates agree and then returns R[s][s] (C07V.romberg_stop_level), which is exact to "
+    "degree 2s+1 >= 5 only (C07V.romberg_exact_at_stop_level). Kernel-checked witness, reproduced on the Rust code "
+    "(C07V.romberg_early_exit_witness): romberg(1 + x^6/100, 0, 1, eps = 1e-3, 5 levels) = 7691/7680, integral 701/700, error 3.7e-6 "
+    "< eps, degree 6 <= 9. Adopted reading (the lead's): k levels means k levels COMPUTED; under it the clause is proved at eps = 0 "
+    "and whenever no stop test fires (C07R.romberg_exact, romberg_exact_horner, C07V.romberg_exact_of_no_stop) and the oracle checks "
+    "degree <= 2k-1 at eps = 0 and degree <= min(2k-1, 5) at eps > 0. Beyond romberg_exact_at_stop_level and the tolerance oracle "
+    "below, NO engine decides the literal clause for eps > 0 and degree in 6..2k-1; no finding is registered for it",
+    "romberg is additive / homogeneous in the integrand at eps = 0 only (C07R.romberg_add, romberg_smul; the tableau R always is: R_add, "
+    "R_smul); at eps > 0 additivity is FALSE (C07V.romberg_not_additive: on [0,1], eps = 1e-3, 5 levels, romberg(1 + x^6/100) = "
+    "7691/7680, romberg(x^6) = 1/7, romberg of the sum = 801/700). Sign change under swapping the limits and a = b -> 0 are proved for "
+    "every eps (C07V.romberg_swap_any, romberg_self_any)",
+    "the clause 'Romberg error of the order of its tolerance for smooth integrands' has no theorem. The oracle decides (a) exactly, on "
+    "every eps > 0 line, that the value returned is the implementation's own diagonal entry at the first level where consecutive "
+    "estimates agree in sign and magnitude, and (b) |error| <= 4 eps max(1,|I|) + rounding ONLY on the ':narrow' cases (interval "
+    "width <= 1/max(1,|k|), about half of the smooth-catalogue lines); on ':wide' cases only (a) is checked, because false "
+    "convergence by aliasing is inherent to the method there",
+    "floating-point rounding: relative to the exact integral it is decided by the oracle with a conditioning-scaled allowance; "
+    "Props/Rounding5 bounds, in the standard model (fl(x) = x(1+d) for every real, no overflow / underflow; genuine instance "
+    "FlModel.grid), the accumulation error of trapz (its theorem still admits n = 0), trapezoid, quad5, Romberg r[0][0] and ONE "
+    "first-column step against the rule sum at the computed nodes - not the Richardson sweep, and not linked to the integral",
+    "trapz_affine, romberg_exact*, romberg_simpson_cubic, romberg_boole_quintic conclude the closed-form antiderivative difference, not "
+    "an interval integral; statements with a genuine integral: trapz_error_bound, C07R.R_exact_real (tableau entry), "
+    "C07Q.quad5_poly_error*, C07V.panel_integral / panelSum_eq_integral_pwl / trapezoid_eq_integral_pwl",
+    "n = 0 panels is outside the quantifier: the code returns +-inf or NaN (division by zero), the algebraic trapz theorems hold there "
+    "through x/0 = 0 only (C07V.trapz_zero_panels says so); the oracle skips n = 0, the correspondence compares it",
+    "romberg has no source tie (hand-modelled: column 0 is interleaved with the Richardson sweep, same values for a pure integrand); "
+    "Option routing and index maps of trapezoid are tied at run time only",
+    "theorems named stdmodel_* hold in the idealised standard model at u = 2^-53; they describe binary64 only where nothing overflows "
+    "or underflows",
+]
